@@ -24,6 +24,9 @@ CHECKS = {
  'C05': ('bounded-exhaustive and property-based truth-table testing: formulas over document-controlled atoms, one child per valuation, Boolean evaluation as oracle (cross-checked with the reference evaluator); generated nested filters for @/$ scoping',
          'Every formula with <= 3 connectives over 3 atoms (and random deeper ones over <= 4 atoms) is rendered with minimal and with redundant parentheses and run against a document that holds one child per valuation, so precedence, negation, existence of falsy values and nested-filter atoms are checked on whole truth tables, for children of arrays and of objects; random two/three-level filters make the inner/outer @ and $ distinguishable. Exhaustive inside the formula box, exploration outside.',
          'Trusted: Boolean evaluation of the formula; atom encodings in harness/src/props/c05.rs; the reference evaluator for the scoping family.', 'DESIGN.md section 4 C05'),
+ 'C10': ('property-based differential testing against a reference evaluator with its own backtracking regular-expression matcher over generated pattern ASTs; exhaustive box for length(); known findings K4/K5 attributed by quirk model or input class',
+         'length() is swept over every kind of argument x n; count()/value() get generated argument queries selecting 0, 1 or many nodes and their results are used inside comparisons, negations and conjunctions; match()/search() get generated pattern ASTs (alternation, anchors, classes, quantifiers, \\p{..}) with subjects derived from the pattern, delivered as literals and through document nodes, plus invalid and non-string patterns/subjects. The oracle never uses the regex crate. Exploration only (exhaustive inside the length box).',
+         'Trusted: the harness matcher and pattern parser (harness/src/regexo.rs; render/parse round-trip checked on every case), the reference evaluator; dialect and alphabet restrictions stated in the evidence assumptions; a 400k-step budget on the naive matcher (exceeded cases are counted as not judged).', 'DESIGN.md section 4 C10'),
 }
 NOT_YET = 'check under construction in this session (designed in DESIGN.md section 4); not yet registered'
 
